@@ -106,6 +106,23 @@ fn inputs(ctx: &Ctx) -> Vec<Input> {
         let d = uniq(3, &mut rng);
         out.push(Input { name: "files-without-final-newline", files: vec![b, c, d], same_path_twice: false, terminators: 2 });
     }
+    {
+        // a file that ends without a line terminator, directly followed by an empty file, followed by more files
+        let b = uniq(12, &mut rng);
+        let c = uniq(12, &mut rng);
+        let d = uniq(4, &mut rng);
+        out.push(Input { name: "no-final-newline-then-empty-files", files: vec![b, vec![], c, vec![], vec![], d, vec![]], same_path_twice: false, terminators: 2 });
+    }
+    {
+        // lines are byte strings: a first line that starts with the bytes EF BB BF (U+FEFF) is a key like any other. Only judged
+        // for `fst set` (the CSV reader of `fst map` has its own, documented, treatment of a leading byte order mark: in the map
+        // modes this shape is written and modelled without the prefix).
+        let mut a = uniq(20, &mut rng);
+        let mut b = uniq(10, &mut rng);
+        a[0].0 = format!("\u{feff}{}", a[0].0);
+        b[0].0 = format!("\u{feff}{}", b[0].0);
+        out.push(Input { name: "bom-first-line-starts-with-ef-bb-bf", files: vec![a, b], same_path_twice: false, terminators: 0 });
+    }
     out.push(Input { name: "one-row", files: vec![vec![("solo".to_string(), 77)]], same_path_twice: false, terminators: 0 });
     out.push(Input { name: "empty-input", files: vec![vec![]], same_path_twice: false, terminators: 0 });
     {
@@ -138,10 +155,20 @@ fn inputs(ctx: &Ctx) -> Vec<Input> {
     out
 }
 
+/// the key as it is written to the input file and expected in the output (see the "bom-" input shape)
+fn key_in_mode<'a>(inp: &Input, mode: Mode, k: &'a str) -> &'a str {
+    if mode != Mode::Set && inp.name.starts_with("bom-") {
+        k.trim_start_matches('\u{feff}')
+    } else {
+        k
+    }
+}
+
 fn model(inp: &Input, mode: Mode) -> BTreeMap<Vec<u8>, u64> {
     let mut m: BTreeMap<Vec<u8>, u64> = BTreeMap::new();
     for f in &inp.files {
         for (k, v) in f {
+            let k = key_in_mode(inp, mode, k);
             let v = if mode == Mode::Set { 0 } else { *v };
             m.entry(k.as_bytes().to_vec())
                 .and_modify(|e| {
@@ -192,6 +219,7 @@ fn run_fst(bin: &Path, dir: &Path, inp: &Input, cfg: &RunCfg, extra_env: &[(Stri
         let p = dir.join(format!("in{}.txt", i));
         let mut text = String::new();
         for (ri, (k, v)) in rows.iter().enumerate() {
+            let k = key_in_mode(inp, cfg.mode, k);
             if cfg.mode == Mode::Set {
                 text.push_str(k);
             } else {
